@@ -201,8 +201,15 @@ func (s *compressedJSONLinesWriter) Write(value any) error {
 		return fmt.Errorf("write closed JSONL fragment")
 	}
 
+	written := s.uncompressedCounter.count
+
 	if err := s.encoder.Encode(value); err != nil {
 		return fmt.Errorf("encode JSONL record %d: %w", s.count+1, err)
+	}
+
+	// The reader refuses longer lines: a fragment holding one could be written but never loaded
+	if lineBytes := s.uncompressedCounter.count - written - 1; lineBytes > maxJSONLLineBytes {
+		return fmt.Errorf("encode JSONL record %d: line exceeds %d bytes", s.count+1, maxJSONLLineBytes)
 	}
 
 	s.count++
